@@ -371,8 +371,17 @@ func TestVerifAssign(t *testing.T) {
 		}
 	})
 	runs := vrt.EnvInt("VERIF_RUNS", 12)
+	// subnets of different widths, also ones that do not begin at .0
+	nets := []struct {
+		cidr   string
+		lo, hi int
+	}{
+		{"10.0.0.0/24", 0, 255}, {"10.0.0.0/25", 0, 127}, {"10.0.0.128/25", 128, 255}, {"10.0.0.0/24", 0, 255},
+		{"10.0.0.64/26", 64, 127}, {"10.0.0.0/28", 0, 15}, {"10.0.0.8/30", 8, 11},
+	}
 	for k := 0; k < runs; k++ {
-		r := newAsgRun(tr, "10.0.0.0/24", 0, 255)
+		nt := nets[k%len(nets)]
+		r := newAsgRun(tr, nt.cidr, nt.lo, nt.hi)
 		statics := []int{1, 2, 3, 254, 253, 100, 101, 50, 200, 255, 0}
 		rng.Shuffle(len(statics), func(i, j int) { statics[i], statics[j] = statics[j], statics[i] })
 		used := 0
